@@ -197,3 +197,28 @@ def colliding_oid_pairs(prefix, bits=32, columns=(1, 2), limit=250000, want=3):
             else:
                 seen[key] = (col, idx)
     return out
+
+
+def colliding_oid_pairs_fn(prefix, fn, want=2, limit=400000):
+    """Like colliding_oid_pairs, for an arbitrary 32-bit fingerprint ``fn(dotted string)``
+    (zlib.crc32, zlib.adler32, ...), over six-component (MAC-address-like) indexes
+    ``prefix.1.a.b.c.d.e.f`` drawn from a fixed pseudo-random sequence."""
+    head = ".".join(str(a) for a in prefix)
+    seen = {}
+    out = []
+    x = 0x2545F491
+    for _ in range(limit):
+        idx = []
+        for _j in range(6):
+            x = (x * 1103515245 + 12345) & 0x7FFFFFFF
+            idx.append((x >> 16) & 0xFF)
+        idx = tuple(idx)
+        key = fn(("%s.1.%s" % (head, ".".join(map(str, idx)))).encode("ascii")) & 0xFFFFFFFF
+        other = seen.get(key)
+        if other is not None and other != idx:
+            out.append((prefix + (1,) + other, prefix + (1,) + idx))
+            if len(out) >= want:
+                return out
+        else:
+            seen[key] = idx
+    return out
